@@ -367,3 +367,10 @@ def run(chk):
                     else:
                         chk.bad("R5", f"{pid}:" + i.key, i.file, i.line, i.what, i.expected, i.found)
     chk.guard("R5", r5)
+
+    def r6():
+        # `~` of a leaf inside a nested parameterised #[parent] is the source path through every enclosing member: built by
+        # convert_parent_child_field (contract decided in C03.R10)
+        from .c03 import parent_path_contract
+        parent_path_contract(chk, "R6")
+    chk.guard("R6", r6)
